@@ -12,8 +12,22 @@ compares every observable with the value TLC printed, and replays every transiti
 objects (update(vector), load(vector, pts), weight / position assignment through the measure- and
 product-level setters, the center_mass / range / var setters) comparing the successor.
 
-Expected values come out of TLC only; Python converts (int -> float, <<num,den>> -> num/den) and
-compares.  Comparisons are exact (==) on floats for everything that is integer or a single division;
+Second spelling (specs/math/MeasureUnits.tla, harness/c19_spell.py): the instances are those of MC_MeasureUnits --
+the same machine plus center_mass = 0, loads that carry no / one value, the LONG shapes (10..12 points per factor, 4..6
+factors, tolerances at the product weights 2, 4, 8, position 0 written) and, per loaded state, the off-lattice calls
+(a weight / vector entry raised by 1/2, center_mass + k/2).  TLC checks the law of units (every observable is homogeneous
+in the weights / positions / values, every action commutes with a change of unit) and prints the catalogue of dyadic
+units, the units admissible for d factors, the degree of every observable and the slot kinds of every shape.  Every
+state, transition and off-lattice call (quick tier: every second state; in the two-edit instance every third state and
+every second transition -- SPELL_STRIDE) is then replayed ONCE MORE in a spelling chosen by a deterministic rotation: unit 2^-1000 .. 2^1000, python int / numpy.int64 / numpy.float64 / numpy.float32 scalars, -0.0,
+tuples / numpy arrays, pts as tuple / array / numpy ints, keywords, negative / numpy indices, other constructors
+(generators, compose, load, unflatten, scenario(pm, values) / keywords / load, values None / omitted), test functions
+returning numpy scalars / the documented bool, support(tol=...) / default, the weight / position / centre of mass written
+through the point mass, the measure or the product measure; after every call the arguments must be unmodified.  All jobs
+(these partitions and the growth jobs of c19_growth) run in one pool.
+
+Expected values come out of TLC only; Python converts (int -> float, <<num,den>> -> num/den, model integer -> unit by
+ldexp with TLC's degree) and compares.  Comparisons are exact (==) on floats for everything that is integer or a single division;
 the only tolerance is 1e-9*max(1,|expected|) for expect_var / var and for the three setters' achieved
 value (their arithmetic rounds).
 """
@@ -25,8 +39,15 @@ from harness.tlc import run_tlc
 TOL = 1e-9
 # (cfg, only shapes with <= this many factors): quick = one edit from 258 loaded measures of all 39 shapes + two edits on
 # the shapes with <= 2 factors; thorough = one edit from 1194 loaded measures + two edits on all shapes
-CFG = {"quick": [("MC_Measures_quick.cfg", 3), ("MC_Measures_deep.cfg", 2)],
-       "thorough": [("MC_Measures_thorough.cfg", 3), ("MC_Measures_deep.cfg", 3)]}
+# the instances are those of MC_MeasureUnits (= MC_Measures + catalogue of units, law of units, center_mass = 0); LONG adds the
+# shapes with two-digit point counts / four to six factors and the loads without / with one value (2 resp. 4 partitions)
+CFG = {"quick": [("MC_MeasureUnits_quick.cfg", 3), ("MC_MeasureUnits_deep.cfg", 2)],
+       "thorough": [("MC_MeasureUnits_thorough.cfg", 3), ("MC_MeasureUnits_deep.cfg", 3)]}
+LONG = "MC_MeasureUnits_long.cfg"
+LONG_PARTS = {"quick": 1, "thorough": 4}
+# (every n-th state, every n-th transition) replayed in a second spelling: (one-edit instance, deep instance); the LONG instance
+# and the off-lattice calls always completely
+SPELL_STRIDE = {"quick": ((2, 1), (3, 2)), "thorough": ((1, 1), (1, 1))}
 
 D = None      # mystic.math.discrete
 M = None      # mystic.math.measures
@@ -403,8 +424,8 @@ def set_catalogue(header):
 def replay_printed(printed, corrupt=None):
     """replay one TLC run's emitted header + states; returns a picklable summary"""
     global _DATA_INDEX
-    set_catalogue(printed[0])
-    states = printed[1:]
+    set_catalogue([p for p in printed if isinstance(p, dict) and "funcs" in p][-1])
+    states = [p for p in printed if isinstance(p, dict) and "succ" in p]
     _DATA_INDEX = {}
     for st in states:
         if "obs" in st:
@@ -434,14 +455,22 @@ def replay_printed(printed, corrupt=None):
 
 
 def tlc_part(job):
-    cfg, part, npart, maxf = job
-    r = run_tlc("math/MC_Measures", cfg=cfg, workers=1, timeout=3000, heap="3g",
-                env={"C19_PART": part, "C19_NPART": npart, "C19_MAXF": maxf})
+    cfg, part, npart, maxf = job[:4]
+    env = {"C19_PART": part, "C19_NPART": npart, "C19_MAXF": maxf}
+    if len(job) > 4 and job[4]:
+        env["C19_LONG"] = job[4]
+    module = "math/MC_MeasureUnits" if cfg.startswith("MC_MeasureUnits") else "math/MC_Measures"
+    r = run_tlc(module, cfg=cfg, workers=1, timeout=3000, heap="3g", env=env)
     return r
 
 
+def job_base(job):
+    """rotation base of a partition: the spelling of a state is a function of (configuration, partition, index)"""
+    return (digest([job[0], job[1], job[2], job[3]]) % 1000003) * 100000
+
+
 def work(job):
-    """one partition: TLC, then the replay of everything it emitted"""
+    """one partition: TLC, then the replay of everything it emitted (once as written, once in a rotating spelling)"""
     r = tlc_part(job)
     mc = {"distinct": r.distinct, "generated": r.generated, "depth": r.depth, "wall_s": r.wall_s,
           "violated": r.violated, "tail": r.out[-3000:] if r.violated else ""}
@@ -450,6 +479,13 @@ def work(job):
     t0 = time.time()
     res = replay_printed(printed) if len(printed) > 1 else None
     mc["replay_s"] = time.time() - t0
+    if res is not None:
+        from harness import c19_spell
+        t1 = time.time()
+        hdr, states = c19_spell.split_printed(printed)
+        if hdr is not None:
+            res["spell"] = c19_spell.replay_spelled(hdr, states, job_base(job), job[5] if len(job) > 5 else 1)
+        mc["spell_s"] = time.time() - t1
     return job, mc, res
 
 
@@ -457,29 +493,40 @@ def jobs_for(a):
     npart = max(1, min(a.jobs, 16))
     if a.tier == "quick":
         npart = max(1, min(a.jobs, 8))
-    return [(cfg, p, npart if maxf == 3 else max(1, npart // 2), maxf) for cfg, maxf in CFG[a.tier]
-            for p in range(npart if maxf == 3 else max(1, npart // 2))], npart
+    stride = SPELL_STRIDE[a.tier]
+    jobs = [(cfg, p, npart if maxf == 3 else max(1, npart // 2), maxf, None, stride[1 if "deep" in cfg else 0]) for cfg, maxf in CFG[a.tier]
+            for p in range(npart if maxf == 3 else max(1, npart // 2))]
+    nlong = max(1, min(LONG_PARTS[a.tier], a.jobs))
+    jobs += [(LONG, p, nlong, 9, "all" if a.tier == "thorough" else "quick", (1, 1)) for p in range(nlong)]
+    return jobs, npart
 
 
 def new_check(a):
     return Check("C19", "model_checking", a.tier, a.seed,
-                 rule="every reachable state of the TLA+ machine math/Measures (all shapes with <= 3 factors x 1..3 points, "
-                      "weights 0..2, positions -1..10, scenario values) is rebuilt from raw point masses and every observable "
+                 rule="every reachable state of the TLA+ machine math/Measures (all shapes with <= 3 factors x 1..3 points, and the "
+                      "LONG shapes with 10..12 points / 4..6 factors; weights 0..2 (3), positions -7..13, scenario values: one per "
+                      "point, none, one) is rebuilt from raw point masses and every observable "
                       "(flatten, weights, positions, mass, round trips, expect/expect_var/pof/support, factor statistics) is "
                       "compared with the value TLC printed; every transition (load, append, update, weight/position "
                       "assignment, center_mass/range/var setter) is replayed on fresh real objects.  A case = one state or one "
                       "transition; distinct by (shape, vector, values[, action]); a state is non-trivial if it has >= 2 "
-                      "factors or a zero weight, every transition is non-trivial (it changes at least one entry)")
+                      "factors or a zero weight, every transition is non-trivial (it changes at least one entry).  Every transition, every "
+                      "off-lattice call (a half written next to integers, center_mass + k/2) and every state (quick: every second; in the "
+                      "two-edit instance every third state / second transition) is "
+                      "replayed once more in a second spelling (unit 2^-1000..2^1000, int / numpy scalars, tuples / arrays, keywords, "
+                      "negative / numpy indices, other constructors and setters: coverage.spellings); distinct by the same key + spelling")
 
 
 def collect(ck, results):
     wm = wo = undefined = 0
     by_action, by_kind = {}, {}
+    spell_count, spell_cases, long_cases = {}, [0, 0], [0, 0]
     ck.extra["replay_wall_s_sum"] = round(sum(mc.get("replay_s", 0) for _, mc, _ in results), 1)
-    ck.extra["slowest_partition_s"] = round(max((mc.get("replay_s", 0) + (mc.get("wall_s") or 0)) for _, mc, _ in results), 1)
+    ck.extra["slowest_partition_s"] = round(max((mc.get("replay_s", 0) + mc.get("spell_s", 0) + (mc.get("wall_s") or 0)) for _, mc, _ in results), 1)
     for job, mc, res in results:
-        name = "Measures[%s, shapes with <= %d factors part %d/%d]" % (
-            job[0].replace("MC_Measures_", "").replace(".cfg", ""), job[3], job[1], job[2])
+        inst = job[0].replace("MC_MeasureUnits_", "").replace("MC_Measures_", "").replace(".cfg", "")
+        name = ("MeasureUnits[long (%s): two-digit point counts, 4..6 factors part %d/%d]" % (job[4], job[1], job[2])) if job[0] == LONG else \
+               ("MeasureUnits[%s, shapes with <= %d factors part %d/%d]" % (inst, job[3], job[1], job[2]))
         if mc["violated"]:
             ck.violation("spec:" + mc["violated"], {"tlc": mc["tail"], "model": name},
                          "TLC: design property %s violated in %s" % (mc["violated"], name))
@@ -502,6 +549,28 @@ def collect(ck, results):
         for key, (n, detail, what) in sorted(res["viol"].items()):
             for _ in range(n):
                 ck.violation(key, detail, what)
+        sp = res.get("spell")
+        if sp:
+            for key in sp["nontrivial"]:
+                ck.case(nontrivial=True, key=key)
+            ck.case(nontrivial=False, n=max(0, sp["cases"] - len(sp["nontrivial"])))
+            ck.trace(sp["traces"])
+            for k, v in sp["count"].items():
+                spell_count[k] = spell_count.get(k, 0) + int(v)
+            spell_cases[0] += sp["cases"]
+            spell_cases[1] += sp["traces"]
+            if job[0] == LONG:
+                long_cases[0] += res["cases"]
+                long_cases[1] += sp["cases"]
+            for smp in sp["samples"]:
+                ck.sample(smp, limit=5)
+            for key, (n, detail, what) in sorted(sp["viol"].items()):
+                for _ in range(n):
+                    ck.violation(key, detail, what)
+    ck.extra["spellings"] = {"cases_replayed_in_a_second_spelling": spell_cases[0], "of_which_transitions": spell_cases[1],
+                             "long_instance_cases_as_written": long_cases[0], "long_instance_cases_second_spelling": long_cases[1],
+                             "replay_wall_s_sum": round(sum(mc.get("spell_s", 0) for _, mc, _ in results), 1),
+                             "by_component": {k: spell_count[k] for k in sorted(spell_count)}}
     ck.extra["transitions_replayed_by_action"] = by_action
     ck.extra["states_by_kind"] = by_kind
     ck.extra["undefined_observables_skipped"] = undefined
@@ -520,13 +589,41 @@ def collect(ck, results):
     ck.mc_runs = list(folded.values())
 
 
+def dispatch(item):
+    """one job of the common pool: a partition of the main models or a job of the growth models"""
+    kind, payload = item
+    t0 = time.time()
+    if kind == "main":
+        return kind, work(payload), time.time() - t0
+    from harness import c19_growth
+    return kind, c19_growth.work(payload), time.time() - t0
+
+
 def explore(ck, a):
+    """all TLC runs and replays of the check in ONE pool of a.jobs processes (longest jobs first): the partitions of
+    MeasureUnits (quick / deep / thorough, long) and the growth jobs (MeasureBounds partitions, MeasureAlias)"""
+    from harness import c19_growth
     ck.exhaustive = True
+    t0 = time.time()
     jobs, npart = jobs_for(a)
+    # expected cost: the round robin over the cost-sorted shapes makes the first partitions the longest; a growth partition
+    # takes about as long as a middle one; deep partitions, MeasureAlias and the long instance are shorter
+    rank = lambda j: (0 if j[0] == LONG else 2 if "deep" in j[0] else 4, -j[1])
+    items = [(rank(j), ("main", j)) for j in jobs] + \
+            [((3 if g[0][0] == "growth" else 1, -g[0][2]), ("growth", g)) for g in c19_growth.growth_items(a)]
+    items = [it for _, it in sorted(items, key=lambda x: x[0], reverse=True)]
     ctx = mp.get_context("fork")
-    with ctx.Pool(min(len(jobs), max(1, a.jobs))) as pool:
-        results = pool.map(work, jobs, chunksize=1)
+    with ctx.Pool(min(len(items), max(1, a.jobs))) as pool:
+        out = pool.map(dispatch, items, chunksize=1)
+    results = [r for kind, r, _ in out if kind == "main"]
     collect(ck, results)
+    ck.extra["main_jobs_s_sum"] = round(sum(t for kind, _, t in out if kind == "main"), 1)
+    ck.extra["pool_wall_s"] = round(time.time() - t0, 1)
+    explore_assumptions(ck)
+    c19_growth.growth_fold(ck, a, [r for kind, r, _ in out if kind == "growth"], sum(t for kind, _, t in out if kind == "growth"))
+
+
+def explore_assumptions(ck):
     ck.assumptions = [
         "weights are integers 0..2, positions integers -1..10, values small integers: every product, sum and single division "
         "is exact in IEEE doubles, so ==; expect_var / var and the achieved value of the center_mass / range / var setters "
@@ -541,6 +638,17 @@ def explore(ck, a):
         "equality, 'equal measure' means equal pts, wts, pos, flatten(), weights and positions",
         "TLC, its Json module and the TLA+ definitions of the explicit sums are trusted; the python side only converts "
         "(int -> float, <<n,d>> -> n/d, catalogue record -> lambda) and compares",
+        "second spelling (MeasureUnits.tla, harness/c19_spell.py): the model's integers denote multiples of a dyadic unit "
+        "<<2^ew, 2^ex, 2^ey>> from TLC's catalogue (admissible for the number of factors by UnitOK: nothing leaves the normal "
+        "double range); values returned by mystic are divided by the unit with the exponent of TLC's table of degrees (law of "
+        "units, model-checked for the multipliers <<2,3,5>>; its variance clause where 32-bit integers suffice) and compared "
+        "as above; test functions read the coordinates in model units.  numpy.float32 data: observables that involve a "
+        "division are compared at 1e-5*max(1,|expected|)",
+        "only legal spellings are rotated, i.e. those the unchanged tree handles: scenario.update and scenario values take "
+        "lists, weights= takes a list / tuple / array (no generator), compose takes nested lists / tuples / rows of arrays (no "
+        "2-d array), _flat takes nested lists / tuples; python / numpy integers only in the unit 1 (a non-integral target or "
+        "written number next to integer data is a float).  Off-lattice calls (w + 1/2, an entry + 1/2, center_mass + k/2) are "
+        "replayed in the second spelling only",
     ]
 
 
@@ -747,6 +855,8 @@ def selftest(a):
         missed += 0 if n else 1
     from harness import c19_growth                       # bounds, remaining statistics, reweighting, object identity
     missed += c19_growth.selftest_growth(a)
+    from harness import c19_spell                        # second spellings, units, the LONG instance, zero target, off-lattice calls
+    missed += c19_spell.selftest_spell(a)
     return 1 if missed else 0
 
 
@@ -767,15 +877,20 @@ def replay_artifact(a):
     want = (st["shape"], st["ws"], st["xs"], st["vals"])
     print("replaying %s: weights %s positions %s values %s%s" % (art["key"], st["ws"], st["xs"], st["vals"],
                                                                 " action %s" % act if act else ""))
-    part = shape_rank(st["shape"] if st["shape"] else act["sh"])
+    shape = st["shape"] if st["shape"] else act["sh"]
+    small = len(shape) <= 3 and all(1 <= n <= 3 for n in shape)
+    runs = [(cfg, {"C19_PART": shape_rank(shape), "C19_NPART": 39}) for cfg in
+            ("MC_MeasureUnits_quick.cfg", "MC_MeasureUnits_thorough.cfg", "MC_MeasureUnits_deep.cfg")] if small else []
+    runs.append((LONG, {"C19_PART": 0, "C19_NPART": 1, "C19_LONG": "all"}))
     rp, done = None, 0
-    for cfg in ("MC_Measures_quick.cfg", "MC_Measures_thorough.cfg", "MC_Measures_deep.cfg"):
-        r = run_tlc("math/MC_Measures", cfg=cfg, workers=1, timeout=3000, heap="3g", env={"C19_PART": part, "C19_NPART": 39})
+    for cfg, env in runs:
+        r = run_tlc("math/MC_MeasureUnits", cfg=cfg, workers=1, timeout=3000, heap="3g", env=env)
         global _DATA_INDEX
-        set_catalogue(r.printed[0])
+        set_catalogue([p for p in r.printed if isinstance(p, dict) and "funcs" in p][-1])
+        emitted = [p for p in r.printed if isinstance(p, dict) and "succ" in p]
         _DATA_INDEX = {(tuple(x["obs"]["flat"]), tuple(x["obs"]["vals"]), tuple(x["obs"]["shape"])): x["obs"]["pos"]
-                       for x in r.printed[1:] if "obs" in x}
-        for x in r.printed[1:]:
+                       for x in emitted if "obs" in x}
+        for x in emitted:
             o = x.get("obs")
             have = (o["shape"], o["ws"], o["xs"], o["vals"]) if o else ([], [], [], [])
             if have != want:
@@ -792,7 +907,7 @@ def replay_artifact(a):
         if rp is not None and done:
             break
     if rp is None or not done:
-        print("state of the artefact is not reachable in the quick / thorough models")
+        print("state of the artefact is not reachable in the quick / thorough / deep / long models")
         return 2
     for key, (n, detail, what) in sorted(rp.viol.items()):
         print("VIOLATION property=C19 replay=%s" % a.replay)
@@ -807,12 +922,12 @@ def main():
     if a.selftest:
         return selftest(a)
     if a.replay:
-        from harness import c19_growth
+        from harness import c19_growth, c19_spell
+        if str(json.load(open(a.replay)).get("key", "")).startswith("spell:"):
+            return c19_spell.replay_spell_artifact(a)
         return c19_growth.replay_growth(a) if c19_growth.is_growth_artifact(a.replay) else replay_artifact(a)
     ck = new_check(a)
-    explore(ck, a)
-    from harness import c19_growth                       # bounds, remaining statistics, reweighting, object identity
-    c19_growth.growth_part(ck, a)
+    explore(ck, a)                                       # main models + growth (bounds, remaining statistics, reweighting, object identity)
     return ck.finish()
 
 
